@@ -48,3 +48,5 @@ open Bpmn.Props.C12 Bpmn.Props.EngineCurrent
 #print axioms Bpmn.Model.Engine.nextTurn_idle
 #print axioms Bpmn.Model.Engine.nextTurn_fst
 #print axioms Bpmn.Props.C12Turns.return_frees_node
+#print axioms Bpmn.Props.C12Turns.nextTurn_mem
+#print axioms Bpmn.Props.C12Turns.nextTurn_node
